@@ -28,7 +28,8 @@ CHECKS = {
         text="For every digraph in the bound (every digraph on <= 4 vertices with self-loops in the thorough tier, seeded larger ones) z3 decides that "
              "each ordering returned by toposort_all is a model of the declarative specification, that none is repeated, and that the specification "
              "conjoined with the negation of all outputs is unsatisfiable; emptiness and toposort's answer are compared with satisfiability. The "
-             "precedence graph of the ordered solver is compared with the labelling oracle's root orders.",
+             "precedence graph of the ordered solver is compared with the labelling oracle's root orders. Returned lists are edited and the call repeated; "
+             "every graph also runs with identity-hashed vertex objects.",
         design="5/C19", engine="forksym",
         note="Trusted: z3 integer difference logic; the graph itself is enumerated (structural input), the output set is decided by the solver."),
     "C20": dict(
@@ -66,7 +67,8 @@ CHECKS = {
         text="Every node's width/height and the numeric drawing parameters are symbolic positive reals; every feasible ordering of the layout's "
              "min/max comparisons is explored and on each path one z3 query proves sibling-box disjointness and containment, pairwise trunk "
              "disjointness, existence of every referenced anchor, the x<->y mirror equality between the horizontal layout with (h,w) and the "
-             "vertical one with (w,h), and repeatability, for all values on that path; the three layouts of an item are computed on ONE "
+             "vertical one with (w,h), repeatability, and independence of how a box's overall height is split into height and depth, for all values on that "
+             "path; the three layouts of an item are computed on ONE "
              "reconciliation object, half of the items after another reconciliation of the same input object was drawn.",
         design="5/C14", engine="forksym",
         note="Trusted: engine.forksym over z3 linear real arithmetic; floats modelled as exact reals (counterexamples replayed with exact rationals and floats); "
@@ -133,8 +135,8 @@ CHECKS = {
         text="RangeMinQuery's real constructor and query run on unconstrained symbolic integers; for every range of every length in the bound z3 "
              "proves the result is the minimum of exactly that slice for ALL array contents. _ilog2 is translated from source to bit-vectors and "
              "proven. The ancestry queries have no numeric dimension: every plane tree of any arity, every node pair and triple up to the bound "
-             "is enumerated on the real code against parent-chain definitions, under four node-naming schemes and two construction "
-             "histories (stated as enumeration).",
+             "is enumerated on the real code against parent-chain definitions, under four node-naming schemes and three construction "
+             "histories, plus a comb of depth 700 and a 40 000-node tree with sampled queries (stated as enumeration).",
         design="5/C17", engine="forksym"),
     "C18": dict(
         technique="AST-to-SMT translation (z3 bit-vectors, ite-merged branches, unwinding assertion) of subseq_segment_dist vs. declarative run count; symbolic-element round trips",
@@ -164,7 +166,9 @@ CHECKS = {
              "feasible path of the real thl / exhaustive solvers (any, all; finite and infinite transfer cost) z3 proves the returned "
              "reconciliation valid and no dearer than each valid reconciliation of an independent enumerator; generate_all is compared "
              "with the oracle set. Extra sections: deep (caterpillar) species trees, and a call history (the solver is first called "
-             "concretely in a fresh interpreter, then explored symbolically; replay in a fresh interpreter). Counterexamples are replayed with plain ints before being reported.",
+             "concretely in a fresh interpreter, then explored symbolically; replay in a fresh interpreter), inputs simulated forward from the event model, a "
+             "thl/exh cross-check beyond the oracle's reach, and a concrete companion with 13-16-digit integer costs (enumeration, stated). Counterexamples "
+             "are replayed with plain ints before being reported.",
         design="5/C01", engine="forksym"),
 }
 
